@@ -9,15 +9,13 @@ V = os.path.join(os.path.dirname(os.path.abspath(__file__)), "..")
 R = [
     # ---- genuine defects (DESIGN §6): recorded in known_findings.json, not in the table
     (r"^parser::xref::\{closure#3\}$", r"overflow:Add", r"start,index", "FINDING", "xref subsection start + index overflows usize for a subsection starting near usize::MAX"),
-    (r"^parser_aux::decode_xref_stream$", r"overflow:Add", r"start,j", "FINDING", "/Index start + j overflows for a start near i64::MAX"),
-    (r"^parser_aux::decode_xref_stream$", r"alloc:from_elem", r"field_widths", "FINDING", "vec![0; W[i]] allocates a buffer sized by an unchecked /W entry"),
+    (r"^parser_aux::decode_xref_stream$", r"overflow:Add", r"start,j", "SAFE", "0 <= j < count and start.checked_add(count) was Some: start + j < start + count <= i64::MAX", [{'kind': 'dominating', 'cond': '^is_none\\(&?checked_add\\(\\$\\d+,\\$\\d+\\)\\)$', 'truth': False, 'where': 'self'}]),
     (r"^Stream::decode_ascii85$", r"overflow:Add", r"^buffer,", "FINDING", "ASCII85 group accumulator `buffer += digit` overflows u32 after checked_mul (e.g. `s8W-\"~>`)"),
     (r"^Stream::decompress_predictor$", r"overflow:Mul", r"colors,bits", "FINDING", "/Colors * /BitsPerComponent taken from DecodeParms overflows usize"),
     (r"^filters::png::decode_frame$", r"overflow:Mul", r"bytes_per_pixel,pixels_per_row", "FINDING", "bytes_per_pixel * pixels_per_row from DecodeParms overflows usize"),
     (r"^parser::image_data_stream$", r"overflow:(Mul|Add)", r"", "FINDING", "inline image geometry W*(C*BPC)+7 / H*stride from the image dictionary overflows usize"),
     (r"^ToUnicodeCMap::get::\{closure#0\}$", r"index:usize", r"vec_of_strings", "FINDING", "bfrange array target shorter than its range is indexed out of bounds"),
     (r"^ToUnicodeCMap::get::\{closure#0\}$", r"overflow:Add", r"", "FINDING", "bfrange offset added to the last UTF-16 unit overflows u16"),
-    (r"^<PageTreeIter as Iterator>::size_hint$", r"iter-arith", r"sum", "FINDING", "size_hint sums /Count values from the file (overflow; lower bound far above the real page count makes collect() panic)"),
 
     # ---- reviewed safe
     (r"CryptFilter>::compute_key$", r"index:RangeTo", r"key_len", "SAFE", "key_len = min(key.len()+5, 16) and an MD5 digest is 16 bytes"),
